@@ -1032,7 +1032,7 @@ class _Flattener:
                     ref_type = "dimension"
 
                 absolute_ref = self.search_by_relative_path(
-                    orig_ref, self.groupp(orig_var), not resolve_dim_or_var
+                    orig_ref, self.group(orig_var), not resolve_dim_or_var
                 )
 
         # Reference is to be searched by proximity
